@@ -12,7 +12,7 @@ from __future__ import annotations
 import json
 import random
 
-from harness import lang, langcheck, langgen, langprobes
+from harness import fw, lang, langcheck, langgen, langprobes
 from harness.langcheck import Strata, judge, run_packed
 
 LEVEL = "model_checking"
@@ -68,6 +68,9 @@ def check(run) -> None:
         judge(run, p, res[p["id"]], "program", counts)
     if cleanw:
         run.sample({"family": "program", "script": langcheck.body_of(res[cleanw[0]["id"]]["src"])[:500], "spec_trace_len": res[cleanw[0]["id"]]["verdict"]["nout"]})
+    # ---- constructs the Lang grammar does not have (comprehensions over range(start, stop, step)): the same scripts run as firmware
+    # and under CPython, printed values compared (the reference is CPython alone here - no specification verdict)
+    raw_values(run)
     # ---- known findings: canonical probes (exact signatures)
     langprobes.run_probes(run, "C01")
     run.cov["outcomes"] = counts
@@ -77,7 +80,55 @@ def check(run) -> None:
         raise MachineryError(f"{run.spec_gaps} spec gaps: the Lang spec disagrees with CPython too often to judge")
 
 
+RAW_VALUE_SCRIPTS = {
+    "rawv-comp-strides": "xs = [i for i in range(10, 0, -2)]\nmon.write(len(xs) * 100 + xs[4])\nys = [i * i for i in range(7, 0, -3)]\nmon.write(len(ys) * 100 + ys[2])\n"
+                         "zs = [i for i in range(2, 11, 4)]\nmon.write(len(zs) * 100 + zs[2])\nws = [i for i in range(9, -1, -4)]\nmon.write(len(ws) * 100 + ws[2])\n"
+                         "us = [i + 1 for i in range(5, 5, -1)]\nmon.write(len(us))\nvs = [i for i in range(3, 8)]\nmon.write(len(vs) * 100 + vs[4])\n",
+    "rawv-comp-runtime-bound": "n = 0\nwhile True:\n    n += 1\n    down = [i for i in range(10, n, -4)]\n    mon.write(len(down) * 100 + down[0])\n    up = [i for i in range(n, 11, 3)]\n    mon.write(len(up) * 100 + up[0])\n"
+                               "    k = 0\n    for q in range(len(down)):\n        k += down[q]\n    mon.write(k)\n",
+}
+
+
+def _raw_value_job(item):
+    from checks.c09 import RAW_HEADER
+    name, body = item
+    src = RAW_HEADER + body
+    return name, src, fw.run_script({"src": src, "passes": 4}), lang.run_cpython(src, 4, [])
+
+
+def raw_values(run) -> None:
+    import concurrent.futures as cf
+    with cf.ProcessPoolExecutor(max_workers=2) as ex:
+        outs = list(ex.map(_raw_value_job, sorted(RAW_VALUE_SCRIPTS.items())))
+    for name, src, r, py in outs:
+        run.count("raw:" + name)
+        if r["transpile"] != "accept" or r.get("compile") != "ok":
+            run.notes.append(f"raw script {name} did not run ({r['transpile']} {r.get('msg') or ''} {r.get('compile') or ''}): nothing was judged on it")
+            continue
+        got = [e.get("v") for e in r.get("events", []) if e.get("e") == "w"]
+        want = [t["toks"][0]["n"] for t in py.get("ev", []) if t.get("e") == "w" and t.get("toks")] if isinstance(py, dict) else None
+        if want is not None and py.get("status", "ok") == "ok" and got != want:
+            run.violation(f"{name}: the firmware prints {got[:16]}, CPython prints {want[:16]}", {"raw": name, "script": src})
+
+
 def replay(path: str) -> int:
+    r0 = json.load(open(path))
+    if "raw" in r0:
+        class _R:
+            def __init__(self):
+                self.violations, self.notes = [], []
+            def count(self, *a, **k):
+                pass
+            def violation(self, what, rep=None, **k):
+                if (rep or {}).get("raw") == r0["raw"]:
+                    self.violations.append(what)
+        rr = _R()
+        raw_values(rr)
+        print(json.dumps(rr.violations))
+        if rr.violations:
+            print(f"VIOLATION property=C01 replay={path}")
+            return 1
+        return 0
     r = json.load(open(path))
     p = r["program"]
     res = lang.three_way([p])[p["id"]]
